@@ -32,16 +32,16 @@ AlgOK(o) ==
     /\ o.panic = "" /\ ~o.hang
     /\ IF o.method = "GetSizeBytes"
        THEN \/ o.res = "SIZE"
-            \/ (o.res = "ERR" /\ after.res = "ERR" /\ o.code = after.code)
-       ELSE o.res = e.main.res /\ o.code = e.main.code
+            \/ (o.res = "ERR" /\ after.res = "ERR" /\ o.code \in after.codes)
+       ELSE o.res = e.main.res /\ o.code \in e.main.codes
     \* completion is not reported before the attached tasks have finished
     /\ o.tasksPending = 0
     \* every side consumer observes what the chain was worth when its clone was made
     /\ \A i \in 1..Len(o.sides) :
           LET sd == o.sides[i] IN
           IF sd.pos <= Len(t.ops)
-          THEN sd.pos \in SidePositions(t) /\ sd.res = OutcomeAfter(t, sd.pos).res /\ sd.code = OutcomeAfter(t, sd.pos).code
-          ELSE sd.res = after.res /\ sd.code = after.code
+          THEN sd.pos \in SidePositions(t) /\ sd.res = OutcomeAfter(t, sd.pos).res /\ sd.code \in OutcomeAfter(t, sd.pos).codes
+          ELSE sd.res = after.res /\ sd.code \in after.codes
     /\ Len(o.sides) = Cardinality(SidePositions(t)) + (IF o.method \in {"CloneStreamBoth", "CloneCopyBoth"} THEN 1 ELSE 0)
     \* the underlying source is released exactly once on every path
     /\ o.srcClosed = 1
